@@ -506,7 +506,9 @@ def main():
 
     # 3. harness
     from gen import widthsweep as _wsweep
-    _wsweep.set_tier(gtier)
+    # the all-widths sweeps keep the REQUESTED tier under escalation: the every-N versions of the N^2 / N^3 operations
+    # (parse, print, ilog, pow, roots on unoptimised bins) would make a quick check of changed code take tens of minutes
+    _wsweep.set_tier(gtier if os.environ.get("VERIF_ESCALATE_SWEEPS") == "1" else tier)
     sweeps = [] if a.replay else SWEEPS.get(pid, [])
     multi = getattr(mod, "HARNESS_BINS", None)
     if neighbour_route:
